@@ -472,7 +472,9 @@ def x4(model: Model, rep: Report):
     for name, (getters, slicer) in spec.items():
         f = E.resolve(name)
         ev = Evaluator(model, inline_methods=False, opaque={"RepetitionExperimentKernel.kernel_cycle_length", "RepetitionExperimentKernel.experiment_repetitions"})
-        ps = PathEnumerator(ev).function_paths(f, self_cls=E)
+        pe = PathEnumerator(ev)
+        pe.own_class_helpers = True          # a kernel-lookup helper of the experiment kernel is part of the getter
+        ps = pe.function_paths(f, self_cls=E)
         s = sym(f.self_name)
         qid, cnt = sym(f.param_names[1]), sym(f.param_names[2])
         # the kernel is found by a first-match scan over the repetition kernels (written in the getter, or in a helper it calls);
@@ -490,6 +492,14 @@ def x4(model: Model, rep: Report):
             hits.append(p)
         found = []
         ok = len(hits) == 1
+        # every other way out answers "no such block": an empty array (a short-cut that answers with some kernel's indices is not a scan hit)
+        def _empty(v):
+            return v is not None and v[0] == "call" and isinstance(v[1], tuple) and v[1][0] == "attr" and v[1][2] in ("asarray", "array", "empty", "zeros") \
+                and (not v[2] or v[2][0] in (("list", ()), ("tuple", ()), ZERO)) or v in (("list", ()),)
+        others = [p for p in ps if p.exit == "return" and p not in hits and not _empty(p.value)]
+        if others:
+            ok = False
+            found.append("answers without scanning for the block: " + "; ".join(f"{show(p.value)[:90]} if {show(p.cond)[:90]}" for p in others[:2]))
         if ok:
             p = hits[0]
             lx = [e for e in p.events if e.kind == "loopexit"][0]
